@@ -136,6 +136,8 @@ def run(ctx):
                             {'pattern': pat, 'flags': corr.flag_names(fv), 'tree': spec, 'differs': which})
                     check_results(T, pat, fv, a, 'glob')
     ctx.counted('root given as str/bytes/PathLike/dir_fd/cwd', n, n // 2, [{'pattern': 'sub/*'}])
+    ntn_ = globcommon.trailing_newline_names(ctx)
+    ctx.counted('names ending in a line feed: walk (str, bytes, dir_fd, descriptor 0, pathlib) vs REALPATH matcher', ntn_, ntn_ // 2, [{'pattern': '[b]', 'entry': 'b\\n'}])
     nin_ = globcommon.inert_arguments(ctx, rng, 3 if ctx.quick else 6)
     ctx.counted('arguments that cannot change the answer (inert exclude=, root spelling, NOUNIQUE)', nin_, nin_ // 2, [{'pattern': '**', 'exclude': 'zz-no-such-name*'}])
     return ctx.finish(RULE)
